@@ -163,7 +163,7 @@ def check_errors(res, d, root_schema, x, errors, hop=None, tag=""):
 
 class C06(Prop):
     ID = "C06"
-    QUICK = 700
+    QUICK = 1300
     THOROUGH = 16000
     RULE = ("cases as in C01 (draft, schema, drawn + schema-derived instances) plus reference worlds (30%); for every "
             "error in the transitive context closure: absolute_path walks from the instance to error.instance; the "
